@@ -321,6 +321,9 @@ def oracle(c, ctx):
             p = a
             for _ in range(n - 1):
                 p = p * a
+            import math
+            if not (math.isfinite(r.value) and math.isfinite(p.value)):
+                return None  # the float range is exceeded: the property speaks about finite values
             if r.GetQuantity() != p.GetQuantity() or not A.rel_close(r.value, p.value):
                 return _fail("a**n is the n-fold product", c, got=repr(r), product=repr(p))
             want_d = {q: e * n for q, e in sa[0].items()}
